@@ -37,7 +37,7 @@ RULE = ('component tuples: known/unknown schemes and relative references without
 	'non-trivial = all eight components come back and the second serialisation is byte-identical; distinct by composed text')
 
 SCHEMES = [u'http', u'https', u'ftp', u'foo', u'x-y.z+1', u'svn+ssh']
-HOSTS = [u'3com.example', u'163.com', u'0mq.q', u'1a', u'9z', u'example.com', u'a', u'h-1.x', u'sub.dom.example', u'127.0.0.1', u'10.0.0.255', u'[::1]', u'[2001:db8::1]', u'[fe80::1:2:3:4]', u'[v1.fe80::a+En1]', u'[v7.X-y~Z]', u'bücher.example', u'www.bücher.example', u'mail.example.рф', u'ταΐζω.gr', u'ǰ.example', u'ẖa.example', u'ᏸᏹ.example', u'ΰx.gr', u'10.255.0.255', u'255.255.255.255', u'0.0.0.0', u'a_b', u"x!$&'()*+,;=y",
+HOSTS = [u'ex\u00e4:mple.com', u'\u00e4/b.example', u'\u00fc@b', u'\u00e4?b#c', u'3com.example', u'163.com', u'0mq.q', u'1a', u'9z', u'example.com', u'a', u'h-1.x', u'sub.dom.example', u'127.0.0.1', u'10.0.0.255', u'[::1]', u'[2001:db8::1]', u'[fe80::1:2:3:4]', u'[v1.fe80::a+En1]', u'[v7.X-y~Z]', u'bücher.example', u'www.bücher.example', u'mail.example.рф', u'ταΐζω.gr', u'ǰ.example', u'ẖa.example', u'ᏸᏹ.example', u'ΰx.gr', u'10.255.0.255', u'255.255.255.255', u'0.0.0.0', u'a_b', u"x!$&'()*+,;=y",
 	# registered names that hold what is a delimiter elsewhere (a parser decodes a%2Fb to this): they must be written escaped
 	u'a/b', u'a?b', u'a#b', u'a@b', u'a:b', u'a b', u'a%b', u'a%2fb', u'a[b]', u'a\\b', u'u:p@h', u'h/x/y', u'a|b', u'a^b`{}']
 SPECIAL = u':@/?#%[]&=+ ;'
